@@ -64,8 +64,13 @@ func (rv *respValue) serializeBlobErrorString(sb *strings.Builder, data respBlob
 	sb.WriteString(fmt.Sprintf("!%d\r\n%s\r\n", len(data), data))
 }
 
+// a simple string or error is one line: line breaks in the text (for example client
+// input quoted in an error message) would break the framing, so they become spaces
+var simpleStringSanitizer = strings.NewReplacer("\r", " ", "\n", " ")
+
 func (rv *respValue) serializeSimpleString(sb *strings.Builder, data string) {
-	sb.WriteString(fmt.Sprintf("%s\r\n", data))
+	sb.WriteString(simpleStringSanitizer.Replace(data))
+	sb.WriteString("\r\n")
 }
 
 func (rv *respValue) serializeInt(sb *strings.Builder, data respInt) {
